@@ -131,6 +131,43 @@ def _setrec(x, strict: bool = False):
         return ()
 
 
+def conv_tree(cv) -> dict:
+    """The tree of converter objects as built by make_converter: class names and sub-converters."""
+    name = type(cv).__name__
+    if name in ('UnionConverter', 'TaggedUnionConverter', 'TupleConverter', 'ValueOrListConverter'):
+        kids = list(cv.converters)
+    elif name == 'StructConverter':
+        kids = list(cv.field_converters.values())
+    elif name == 'PaneConverter':
+        kids = list(cv.field_converters)
+    elif name == 'DictConverter':
+        kids = [cv.k_conv, cv.v_conv]
+    elif name == 'SequenceConverter':
+        kids = [cv.v_conv]
+    elif name == 'NestedSequenceConverter':
+        kids = [cv.val_conv]
+    elif name in ('ConditionalConverter', 'DelegateConverter'):
+        kids = [cv.inner]
+    elif name == 'EnumConverter':
+        kids = [cv.inner_conv]
+    elif name == 'PatternConverter':
+        kids = [cv.ty_conv]
+    else:
+        kids = []
+    return {'c': name, 'kids': [conv_tree(k) for k in kids]}
+
+
+def ev_dispatch(ident: int, c: Case) -> dict:
+    """The build phase as the implementation-shaped model sees it (spec/PaneDispatch.tla): informational."""
+    if c.bf is not None:
+        raise OutOfVocab('converter cannot be built')
+    try:
+        tree = conv_tree(make_converter(c.ty))
+    except Exception:  # noqa  (an attribute of a converter class was renamed: the model has no view any more)
+        raise OutOfVocab('converter objects cannot be walked')
+    return {'id': ident, 'op': 'dispatch', 'ty': c.T, 'val': c.v, 'tree': tree, 'out': {'k': 'built'}}
+
+
 def _is_pane_class(c: Case) -> bool:
     return c.T['k'] == 'cls' and isinstance(c.ty, type) and issubclass(c.ty, pane.PaneBase)
 
